@@ -189,4 +189,14 @@ def stage_fuzz(ctx, base_env):
         m.log(out[-3000:])
 
 
-STAGES = {"c05": stage_c05, "c14": stage_c14, "fuzz": stage_fuzz}
+def stage_c04gen(ctx, base_env):
+    """C04 over generated lexers: the C05 compile pipeline with C04's validator as the only oracle."""
+    tconf = ctx["tconf"]
+    if ctx.get("replay_file"):
+        return
+    env = {"VERIF_C05_DEFS": str(tconf.get("gen_defs", 25)), "VERIF_C05_INPUTS": str(tconf.get("gen_inputs", 120)),
+           "VERIF_SEED": str(ctx["seed"] * 100 + 77), "VERIF_AS_PROP": "C04"}
+    c05_pipeline(ctx, dict(base_env, VERIF_AS_PROP="C04"), "c04gen", env)
+
+
+STAGES = {"c05": stage_c05, "c14": stage_c14, "fuzz": stage_fuzz, "c04gen": stage_c04gen}
